@@ -21,6 +21,9 @@ Lines == {[form |-> "unit_lit", x |-> X(q, u)] : q \in Amounts \cup {Q(-7, 4), Z
     \* every ordered pair of units of one kind in sums and ratios (units at the same position of different families included)
     \cup {[form |-> "unit_arith", l |-> X(QInt(3), p[1]), op |-> o, r |-> X(Q(5, 2), p[2])] :
               p \in {q \in SameKindPairs : UnitOf(q[2]).e2 - UnitOf(q[1]).e2 \in -20..20 /\ \E c \in SizeClasses : q[1] \in c /\ q[2] \in c}, o \in {"+", "/"}}
+    \* ratios of memory quantities any number of binary orders apart (terms over 2^k)
+    \cup {[form |-> "unit_arith", l |-> X(QInt(3), p[1]), op |-> "/", r |-> X(Q(5, 2), p[2])] :
+              p \in {q \in SameKindPairs : UnitOf(q[1]).kind = "memory" /\ UnitOf(q[2]).e2 - UnitOf(q[1]).e2 \notin -20..20}}
     \cup {[form |-> "unit_arith", l |-> X(QInt(3), p[1]), op |-> o, r |-> X(Q(5, 2), p[2])] : p \in ArithPairs, o \in {"+", "-", "/"}}
     \cup {[form |-> "unit_arith", l |-> X(Q(-5, 2), u), op |-> o, r |-> X(n, "")] : u \in {"km", "in", "kg", "oz", "mb"}, o \in {"*", "/"}, n \in {QInt(4), Q(1, 2), Zero}}
 VARIABLE line
